@@ -86,7 +86,7 @@ def deliver (v : SV) (c : Nat) (n : String) (ids : String) (late : Bool) : SV ×
 /-- One behaviour operation with the implementation's `blk` outputs and server peers after it. -/
 def stepB (v : SV) (opText : String) (implBlks : String) (implS : String) : SV × Option String :=
   match opText.splitOn " " with
-  | ["reset", sdh] => ({ node := { client := { sdh := sdh == "1" } } }, none)
+  | ["reset", sdh] => ({ node := { client := { sdh := sdh.startsWith "1" } } }, none)
   | toks =>
     match NodeIO.parseOp toks v.node.now with
     | none => (v, some s!"unreadable operation `{opText}`")
